@@ -95,7 +95,7 @@ def _worker(prop, tier, seed, widx, n_examples, q):
     from hypothesis import given, settings, seed as hseed, HealthCheck, Phase, Verbosity
     ctx = Ctx("w%d" % widx)
     stats = {"evaluations": 0, "nontrivial": set(), "classes": {}, "samples": [], "known_hits": {},
-             "failure": None, "error": None, "excluded": {}}
+             "failure": None, "error": None, "excluded": {}, "metrics": {}}
     fail = {}
 
     @settings(max_examples=n_examples, database=None, deadline=None, report_multiple_bugs=False,
@@ -110,6 +110,10 @@ def _worker(prop, tier, seed, widx, n_examples, q):
             stats["classes"][c] = stats["classes"].get(c, 0) + 1
         if out.known:
             stats["known_hits"][out.known] = stats["known_hits"].get(out.known, 0) + 1
+        if isinstance(out.detail, dict):
+            for k, v in out.detail.items():
+                if isinstance(v, (int, float)):
+                    stats["metrics"][k] = stats["metrics"].get(k, 0) + v
         if out.nontrivial:
             h = case_hash(case)
             if h not in stats["nontrivial"]:
@@ -228,6 +232,7 @@ def main(prop, argv):
     samples = []
     known_hits = {}
     excluded = {}
+    metrics = {}
     failures = []
     errors = []
     for r in results:
@@ -238,6 +243,8 @@ def main(prop, argv):
             known_hits[k] = known_hits.get(k, 0) + v
         for k, v in r["excluded"].items():
             excluded[k] = excluded.get(k, 0) + v
+        for k, v in r.get("metrics", {}).items():
+            metrics[k] = metrics.get(k, 0) + v
         samples.extend(r["samples"])
         if r["failure"] and r["failure"].get("case") is not None:
             failures.append(r["failure"])
@@ -297,6 +304,7 @@ def main(prop, argv):
         "regression_cases_replayed": regress_n,
         "known_finding_hits": known_hits,
         "excluded_by_construction": excluded,
+        "metrics": metrics,
         "nontrivial_fraction": round(len(nontrivial) / max(1, evaluations), 4),
     }
     if hasattr(prop, "extra_coverage"):
